@@ -322,8 +322,9 @@ impl Mon {
                             }
                             Frame::NewConnectionId { seq, retire_prior_to, token, .. } => {
                                 let n = self.nci_seen.entry((ei, conn.pair)).or_default();
-                                if n.tokens.len() < 256 {
-                                    n.tokens.insert(*seq, *token);
+                                n.tokens.insert(*seq, *token);
+                                if n.tokens.len() > 256 {
+                                    n.tokens.pop_first(); // keep the most recent ones
                                 }
                                 n.max_rpt = n.max_rpt.max(*retire_prior_to);
                                 if !n.srcs.contains(&d.src) {
